@@ -167,9 +167,10 @@ Definition recv (s : sched) : option sched :=
 Record snap := mkSnap { s_ov : ostatus; s_tbl : table }.
 
 (* Agent.Status (agent.go:213-253); the arm at :219-222 (none while the graph is started => running) is kept *)
-Definition snap_of (fx : bool) (s : sched) : snap :=
+Definition ov_of (fx : bool) (s : sched) : ostatus :=
   let o := overall fx (canc s) (started s) (serr s) (tbl s) in
-  mkSnap (match o with ONone => if started s then ORunning else ONone | _ => o end) (tbl s).
+  match o with ONone => if started s then ORunning else ONone | _ => o end.
+Definition snap_of (fx : bool) (s : sched) : snap := mkSnap (ov_of fx s) (tbl s).
 
 Inductive sockst := SockAbsent | SockStale | SockLive.
 
@@ -178,8 +179,12 @@ Inductive mphase :=
 | MFinalComputed (s : snap) | MFinalWritten | MFinished | MUnbound
 | MCompactRead (s : snap) | MCompactCreated (s : snap) | MCompactWritten | MCompactDone | MClosed.
 
-Inductive fsphase := FSleep | FChecked | FComputed (s : snap) | FGone.
-Inductive cphase := CIdle | CGot | CComputed (s : snap).
+(* Agent.Status is NOT atomic: it first asks the scheduler for the overall status (agent.go:218), later copies the node table
+   (:231); the scheduler may move in between.  The two snapshot goroutines therefore pass through `...Ov o` (overall read)
+   before `...Computed s` (table copied).  For the main thread's two snapshots nothing can move in between (S0: Schedule
+   has not started; final: Schedule has returned), they are one label. *)
+Inductive fsphase := FSleep | FChecked | FOv (o : ostatus) | FComputed (s : snap) | FGone.
+Inductive cphase := CIdle | CGot | COv (o : ostatus) | CComputed (s : snap).
 
 Record astate := mkA {
   sc : sched;
@@ -201,8 +206,8 @@ Definition mrank (m : mphase) : nat :=
 Inductive alabel :=
 | LOpen | LWriteS0 | LBind
 | LSched (l : slabel)
-| LFsWake | LFsCompute | LFsAppend
-| LNotify | LCCompute | LCAppend
+| LFsWake | LFsOv | LFsTbl | LFsAppend
+| LNotify | LCOv | LCTbl | LCAppend
 | LFinalCompute | LFinalAppend | LFinish | LUnbind
 | LCompactRead | LCompactSkip | LCompactCreate | LCompactWrite | LCompactUnlink | LCloseWriter.
 
@@ -244,13 +249,15 @@ Definition astep (fx : bool) (st : astate) (l : alabel) : option astate :=
                | FSleep => if 3 <=? mrank (mp st)
                            then Some (with_fs st (if 6 <=? mrank (mp st) then FGone else FChecked)) else None
                | _ => None end
-  | LFsCompute => match fs st with FChecked => Some (with_fs st (FComputed (snap_of fx (sc st)))) | _ => None end
+  | LFsOv => match fs st with FChecked => Some (with_fs st (FOv (ov_of fx (sc st)))) | _ => None end
+  | LFsTbl => match fs st with FOv o => Some (with_fs st (FComputed (mkSnap o (tbl (sc st))))) | _ => None end
   | LFsAppend => match fs st with FComputed s => Some (with_fs (with_file st (append st s)) FGone) | _ => None end
   (* for node := range done { Status(); Write } *)
   | LNotify => match cp st, recv (sc st) with
                | CIdle, Some s' => if 3 <=? mrank (mp st) then Some (with_cp (with_sc st s') CGot) else None
                | _, _ => None end
-  | LCCompute => match cp st with CGot => Some (with_cp st (CComputed (snap_of fx (sc st)))) | _ => None end
+  | LCOv => match cp st with CGot => Some (with_cp st (COv (ov_of fx (sc st)))) | _ => None end
+  | LCTbl => match cp st with COv o => Some (with_cp st (CComputed (mkSnap o (tbl (sc st))))) | _ => None end
   | LCAppend => match cp st with CComputed s => Some (with_cp (with_file st (append st s)) CIdle) | _ => None end
   (* the main thread after Schedule has returned *)
   | LFinalCompute => match mp st, sph (sc st) with
@@ -354,9 +361,9 @@ Definition gap (fx : bool) (s : sched) : bool :=
   match s_ov (snap_of fx s) with OSuccess => negb (all_succeed (tbl s)) | _ => false end.
 
 Definition computes (l : alabel) : bool :=
-  match l with LWriteS0 | LFsCompute | LCCompute | LFinalCompute => true | _ => false end.
+  match l with LWriteS0 | LFsOv | LCOv | LFinalCompute => true | _ => false end.      (* where Scheduler.Status is evaluated *)
 
-(* no snapshot is taken inside the window *)
+(* Scheduler.Status is never evaluated for a snapshot inside the window *)
 Fixpoint no_gap_snapshot (fx : bool) (st : astate) (ls : list alabel) : bool :=
   match ls with
   | [] => true
@@ -366,8 +373,8 @@ Fixpoint no_gap_snapshot (fx : bool) (st : astate) (ls : list alabel) : bool :=
 
 (* no snapshot computed earlier is still waiting for the writer's lock when Schedule returns (F8b/F8c) *)
 Definition quiet (st : astate) : bool :=
-  match fs st with FComputed _ => false | _ => true end &&
-  match cp st with CComputed _ => false | _ => true end.
+  match fs st with FComputed _ | FOv _ => false | _ => true end &&
+  match cp st with CComputed _ | COv _ => false | _ => true end.
 
 Fixpoint quiet_at_return (fx : bool) (st : astate) (ls : list alabel) : bool :=
   match ls with
